@@ -175,7 +175,9 @@ def classify(h, cmd, rc, out, wall):
         if 'unsupported' in out.lower() or 'not currently supported' in out.lower():
             r.update(status='inconclusive', reason='unsupported construct reached')
             i = out.lower().find('not currently supported')
-            r['detail'] = out[max(0, i - 1200):i + 800]
+            r['detail'] = out[max(0, i - 1200):i + 800] if i >= 0 else out[-2500:]
+            if os.environ.get('VERIF_KANI_DUMP'):
+                open(os.environ['VERIF_KANI_DUMP'], 'w').write(out)
             return r
         r.update(status='inconclusive', reason='FAILED without failed checks')
         r['detail'] = out[-3000:]
